@@ -70,7 +70,7 @@ use trippy_tui::verif::{
 // offline hostname stub
 // ------------------------------------------------------------------------------------------
 
-static DNS_STUB: AtomicBool = AtomicBool::new(false);
+pub static DNS_STUB: AtomicBool = AtomicBool::new(false);
 const SRC_V4: Ipv4Addr = Ipv4Addr::new(199, 198, 197, 196);
 const SRC_MARK: &str = "199.198.197";
 const SRC_HOST_MARK: &str = "srchost";
